@@ -90,6 +90,12 @@ def code_texts(rng, tier, trees):
            "a = {b = {c}}", "x = !(a && {b})", "x = -(1 + 2)", "x = (1 + 2) * 3", "x = 1 - (2 - 3)", "x = (a select 0) select 1", "x = a select (0 + 1)",
            "x = if (a) then {1}", "while {a < 3} do {a = a + 1}", "x = [(1 + 2) * 3, -(4)]", "x = (y = 1)" if False else "x = str (1 + 2)", "x = count (a + b)", "x = (count a) + b",
            "x = $ff + 0x10", "x = .5 + 1e3", "hint \"a\"", "x = not (a || b)"]
+    # right- and left-nested pairs of registered operators, same operator and neighbours of its level
+    real = ["+", "-", "*", "/", "%", "mod", "&&", "||", "and", "or", "min", "max", "select", "^", "==", "isEqualTo", "atan2", ">>"]
+    for a in real:
+        for b in ([a] + rng.sample(real, 3) if tier == "quick" else real):
+            stm.append("x = p %s (q %s r)" % (a, b))
+            stm.append("x = (p %s q) %s r" % (a, b))
     for s in stm:
         texts.append(("stmt", s))
     return texts
